@@ -243,6 +243,9 @@ def producers():
                                                                initial_values="0", remove_unloaded=False)[0]),
         ("tx.unroll(state)", lambda c: tx.unroll(c, 3, {sorted(c.outputs())[0]: sorted(c.inputs())[0]})[0]),
         ("tx.limit_fanin(limit_fanout)", lambda c: tx.limit_fanin(tx.limit_fanout(c, 2), 2)),
+        ("add_blackbox(hierarchical pins)", _bb_hier),
+        ("remove_unloaded(flop with dead logic)", _ru_flop),
+        ("remove_unloaded(inputs=True)", _ru_plain),
     ]
 
 
@@ -266,6 +269,46 @@ def _with_flop(c):
     r.add("q_net", "buf")
     r.add("q_out", "and", fanin=["q_net", sorted(r.inputs())[0]], output=True)
     r.add_blackbox(cg.generic_flop, "ff0", {"clk": "clk_net", "d": sorted(c.outputs())[0], "q": "q_net"})
+    return r
+
+
+def _bb_hier(c):
+    """A fully connected blackbox whose pin names look hierarchical (io.d / io.q), as flattened designs have."""
+    import circuitgraph as cg
+
+    r = c.copy()
+    o = sorted(c.outputs())[0]
+    r.add("hq", "buf")
+    r.add("hq_out", "buf", fanin="hq", output=True)
+    r.add_blackbox(cg.BlackBox("cell", ["io.d"], ["io.q"]), "u0", {"io.d": o, "io.q": "hq"})
+    return r
+
+
+def _ru_flop(c):
+    """remove_unloaded on a lint-clean circuit with a flop whose second output only feeds dead logic."""
+    import circuitgraph as cg
+
+    r = c.copy()
+    if sorted(r.outputs())[0] in r.inputs():
+        raise _Skip()
+    r.add("clk_net", "input")
+    r.add("q_net", "buf")
+    r.add("qn_net", "buf")
+    r.add("dead1", "not", fanin="qn_net")
+    r.add("dead2", "and", fanin=["dead1", sorted(r.inputs())[0]])
+    r.add("q_out", "buf", fanin="q_net", output=True)
+    r.add_blackbox(cg.BlackBox("FD", ["CK", "D"], ["Q", "QN"]), "r0",
+                   {"CK": "clk_net", "D": sorted(c.outputs())[0], "Q": "q_net", "QN": "qn_net"})
+    cg.lint(r)
+    r.remove_unloaded()
+    return r
+
+
+def _ru_plain(c):
+    r = c.copy()
+    r.add("spare", "input")
+    r.add("dead", "and", fanin=["spare", sorted(r.inputs())[0]])
+    r.remove_unloaded(inputs=True)
     return r
 
 
